@@ -77,29 +77,7 @@ def check(run):
                   'function_impl constructor does not assign both call_fun and deallocate_fun of its trivial base callable')
         break
 
-    # R1-GUARD: the tabled scratch pointers are written on every path that sets the slot that guards their reads
-    run.clause('R1-GUARD tabled scratch fields are written before the slot that guards their reads is set')
-    guard_slots = [
-        ('sim::asio::ip::tcp::acceptor::async_accept', 'm_accept_into', ('m_accept_handler', 'm_accept_handler2')),
-        ('sim::asio::ip::tcp::acceptor::async_accept', 'm_remote_endpoint', ('m_accept_handler', 'm_accept_handler2')),
-    ]
-    for fname, fld, slots in guard_slots:
-        for fn in fx.fn(fname):
-            run.touch(fn)
-            accs = q.field_accesses(fn)
-            sets_slot = [a for a in accs if a.field.split('::')[-1] in slots and a.kind == 'assign']
-            wr = [a for a in accs if a.field.split('::')[-1] == fld and a.kind == 'assign']
-            ok = True
-            why = ''
-            for s in sets_slot:
-                bs = fn.cfg.node_block(s.site)
-                if not any(fn.cfg.dominates(fn.cfg.node_block(w.site), bs) for w in wr):
-                    ok = False
-                    why = 'slot %s set at line %d without a dominating write of %s' % (s.field.split('::')[-1], s.node['l'], fld)
-            if not sets_slot:
-                ok = False
-                why = 'no slot assignment found (idiom changed)'
-            run.check(ok, 'R1-GUARD', fld, fn.norm + fn.sig, fn.loc(), why, 'every path that sets an accept slot first writes ' + fld)
+    accept_scratch_rule(run)
     run.clause('R1-local no scalar local is read before it was assigned on every path (definite assignment over the CFG)')
     nl = engines.uninit_local_reads(run, [f for f in fx.repo_functions() if f.file.startswith(simlib.REPO_PREFIX)])
     run.ok('R1', 'local-init-scan', 'library', '', '%d scalar locals declared without initialiser in the library' % nl, nontrivial=False)
@@ -154,6 +132,35 @@ def address_ordered(ty):
         if key.endswith('*') or re.match(r'std::(shared_ptr|unique_ptr|weak_ptr)<', key):
             return True
     return False
+
+
+def accept_scratch_rule(run):
+    """R1-GUARD: the acceptor's borrowed out-pointers (m_accept_into, m_remote_endpoint) are written on every path that
+    arms an accept slot, so a hand-out never writes through the pointer a PREVIOUS (cancelled, completed) accept left
+    behind (shared with C12: the caller may have freed that object once its handler ran)."""
+    fx = run.fx
+    run.clause('R1-GUARD tabled scratch fields are written before the slot that guards their reads is set')
+    guard_slots = [
+        ('sim::asio::ip::tcp::acceptor::async_accept', 'm_accept_into', ('m_accept_handler', 'm_accept_handler2')),
+        ('sim::asio::ip::tcp::acceptor::async_accept', 'm_remote_endpoint', ('m_accept_handler', 'm_accept_handler2')),
+    ]
+    for fname, fld, slots in guard_slots:
+        for fn in fx.fn(fname):
+            run.touch(fn)
+            accs = q.field_accesses(fn)
+            sets_slot = [a for a in accs if a.field.split('::')[-1] in slots and a.kind == 'assign']
+            wr = [a for a in accs if a.field.split('::')[-1] == fld and a.kind == 'assign']
+            ok = True
+            why = ''
+            for s in sets_slot:
+                bs = fn.cfg.node_block(s.site)
+                if not any(fn.cfg.dominates(fn.cfg.node_block(w.site), bs) for w in wr):
+                    ok = False
+                    why = 'slot %s set at line %d without a dominating write of %s' % (s.field.split('::')[-1], s.node['l'], fld)
+            if not sets_slot:
+                ok = False
+                why = 'no slot assignment found (idiom changed)'
+            run.check(ok, 'R1-GUARD', fld, fn.norm + fn.sig, fn.loc(), why, 'every path that sets an accept slot first writes ' + fld)
 
 
 def r13b(run, OUTPUT_ONLY, with_library_tables=True):
